@@ -382,6 +382,9 @@ def oracle_seq(ops, script, out):
         lost = len(consumed) - len(vals)
         if lost > 1 or (lost == 1 and fin == "ok" and c != 0):
             return "%s: %d received event(s) neither returned nor reported" % (at, lost)
+        # accept() may consume exactly the pending connect event, never a frame or a disconnect
+        if lost == 1 and fin == "ok" and c == 0 and make_msg(consumed[-1])["type"] != "websocket.connect":
+            return "%s: accept() consumed and discarded the server event %s" % (at, script_render(consumed[-1]))
         pos += len(consumed)
         # what counts as "a disconnect was delivered"
         if fin.startswith("WebSocketDisconnect") or fin == "stop" or \
